@@ -2401,6 +2401,14 @@ static srtp_err_status_t srtp_unprotect_aead(srtp_ctx_t *ctx,
         break;
     }
 
+    /*
+     * undo the cryptex buffer shuffle first: the header extension must be
+     * back in its place before it is walked
+     */
+    if (cryptex_inuse) {
+        srtp_cryptex_unprotect_cleanup(cryptex_inplace, hdr, rtp);
+    }
+
     if (hdr->x == 1 && session_keys->rtp_xtn_hdr_cipher) {
         /*
          * extensions header encryption RFC 6904
@@ -2410,10 +2418,6 @@ static srtp_err_status_t srtp_unprotect_aead(srtp_ctx_t *ctx,
         if (status) {
             return status;
         }
-    }
-
-    if (cryptex_inuse) {
-        srtp_cryptex_unprotect_cleanup(cryptex_inplace, hdr, rtp);
     }
 
     /*
